@@ -83,7 +83,7 @@ func init() {
 				cse.TimeoutMS = 60000
 				cs = append(cs, cse)
 			}
-			for i, s := range []string{"blocked-stop", "parked-dispatch", "cancel-blocked-stop", "restart-rearm", "restart-from-last", "stop-at-once", "double-stop", "long-blocked-stop", "zero-delay-middle", "equal-frequency-neighbours", "unsorted-delays", "restarts-during-report", "restart-at-start"} {
+			for i, s := range []string{"blocked-stop", "parked-dispatch", "cancel-blocked-stop", "restart-rearm", "restart-from-last", "stop-at-once", "double-stop", "long-blocked-stop", "zero-delay-middle", "equal-frequency-neighbours", "unsorted-delays", "restarts-during-report", "restart-at-start", "restart-before-first-delay"} {
 				reps := 2
 				if tier == "thorough" {
 					reps = 8
@@ -106,6 +106,10 @@ func init() {
 					}
 					if s == "restart-at-start" {
 						p.Scheds = []c18Sched{{0, 5}}
+					}
+					if s == "restart-before-first-delay" {
+						// the first schedule is due after 400 ms; a Restart at once starts it at once
+						p.Scheds = []c18Sched{{400, 100}, {250, 10}}
 					}
 					if s == "long-blocked-stop" && rep > 0 {
 						continue // 6.5 s each: one per tier run
@@ -609,6 +613,40 @@ func c18Script(c *core.Case, o *core.Outcome) {
 				return
 			}
 		}
+	case "restart-before-first-delay":
+		// Restart before the first schedule's own start delay has elapsed: the first schedule starts then, the second one
+		// 250 ms later, and nothing goes back to the first schedule afterwards (no further Restart is made)
+		rc := &c18Rec{l: l}
+		runner, _ := raterun.New(rc.c18fn, c18Schedules(&p))
+		runner.Start(ctx)
+		runner.Restart()
+		time.Sleep(1100 * time.Millisecond)
+		done, _ := stopInGoroutine(runner, rc)
+		select {
+		case <-done:
+		case <-time.After(10 * time.Second):
+			o.Violate(key+"-hang", "Stop did not return within 10 s")
+			return
+		}
+		rc.mu.Lock()
+		invs := append([]c18Inv(nil), rc.invs...)
+		rc.mu.Unlock()
+		f1st, f2nd := time.Duration(p.Scheds[0].FreqMS)*time.Millisecond, time.Duration(p.Scheds[1].FreqMS)*time.Millisecond
+		seen2 := -1
+		for i, in := range invs {
+			if in.freq == f2nd && seen2 < 0 {
+				seen2 = i
+			}
+			if in.freq == f1st && seen2 >= 0 {
+				o.Violate(key, "schedules %v, Restart right after Start and none afterwards: invocation %d (at %v) runs at the first schedule's frequency again after invocation %d had run at the second schedule's: the runner went back to the first schedule by itself", p.Scheds, i, in.begin, seen2)
+				return
+			}
+		}
+		if seen2 < 0 {
+			o.Inconc("the second schedule was never observed")
+			return
+		}
+		o.AddObs("invocations", int64(len(invs)))
 	case "double-stop":
 		// several Stop calls overlapping while the function is executing: none of them may return before it has
 		rc := &c18Rec{l: l, gate: make(chan struct{}), entered: make(chan struct{})}
